@@ -449,10 +449,23 @@ func checkC12(sc *Scenario, t *Truth) []Violation {
 		}
 		var firstKill *KillEv
 		for i := range din.Kills {
-			if din.Kills[i].Seq >= sd {
-				firstKill = &din.Kills[i]
-				break
+			k := &din.Kills[i]
+			if k.Seq < sd {
+				continue
 			}
+			// a signal sent on behalf of a user's own stop/restart request for this
+			// process is not part of the ordered shutdown
+			userStop := false
+			for _, c := range t.Calls {
+				if (c.Op == "stop" || c.Op == "restart" || c.Op == "stopmany") && c.Task == k.Task && c.CallSeq < k.Seq && (c.RetSeq < 0 || c.RetSeq > k.Seq) && strings.Contains(c.Desc, depName) {
+					userStop = true
+				}
+			}
+			if userStop {
+				continue
+			}
+			firstKill = k
+			break
 		}
 		if firstKill == nil {
 			continue
